@@ -439,10 +439,37 @@ class ExprMixin:
             if s.exc is not None:
                 out.append((s, None))
                 continue
-            conj = []
-            for op, a, b in zip(e.ops, vals, vals[1:]):
-                conj.append(self.compare(s, op, a, b, e))
-            out.append((s, VBool(z3.simplify(z3.And(*conj)) if len(conj) > 1 else z3.simplify(conj[0]))))
+            # ordering comparisons on optionals: None raises TypeError (total in spec mode)
+            need = set()
+            for i, op in enumerate(e.ops):
+                if isinstance(op, (ast.Lt, ast.LtE, ast.Gt, ast.GtE)):
+                    need.update((i, i + 1))
+            cands = [(s, list(vals))]
+            for i in sorted(need):
+                if not isinstance(vals[i], VOpt):
+                    continue
+                nxt = []
+                for s1, vs in cands:
+                    if s1.exc is not None:
+                        nxt.append((s1, vs))
+                        continue
+                    if self.spec_mode:
+                        vs[i] = vs[i].some()
+                        nxt.append((s1, vs))
+                        continue
+                    for s2, inner in self.force(s1, vs[i], e):
+                        v2 = list(vs)
+                        v2[i] = inner
+                        nxt.append((s2, v2))
+                cands = nxt
+            for s1, vs in cands:
+                if s1.exc is not None:
+                    out.append((s1, None))
+                    continue
+                conj = []
+                for op, a, b in zip(e.ops, vs, vs[1:]):
+                    conj.append(self.compare(s1, op, a, b, e))
+                out.append((s1, VBool(z3.simplify(z3.And(*conj)) if len(conj) > 1 else z3.simplify(conj[0]))))
         return out
 
     def compare(self, st, op, a, b, node):
